@@ -294,6 +294,19 @@ def c20(work, tier, seed):
             size = [1, 100, 1400, 5000][h % 4]
         scripts.append({"id": "q%05d" % i, "method": ["GET", "PUT", "DELETE"][h % 3] if req["method"] == "GET" else "POST", "len": req["len"], "body": req["body"], "realm": req["realm"],
                         "size": size, "sizecls": req["size"], "kdcs": kd, "target": "handler"})
+    # several requests at the same time on one proxy instance (every KDC delays its reply so that they overlap): what a
+    # request is answered does not depend on the others
+    base = [x for x in scripts if x["method"] == "POST" and x["len"] == "ok" and x["body"] == "valid" and x["realm"] != "unknown" and x["sizecls"] in ("s4", "s1400", "s60000")]
+    rng.shuffle(base)
+    seen = set()
+    for x in base:
+        k = json.dumps(x["kdcs"], sort_keys=True)
+        if k in seen or any(kd["tcp"] == "silent" and kd["udp"] == "silent" for kd in x["kdcs"]) and tier == "quick" and len(seen) > 6:
+            continue
+        seen.add(k)
+        scripts.append(dict(x, id="o%05d" % len(scripts), overlap=[1, 2, 3][len(seen) % 3]))
+        if len(seen) >= (14 if tier == "quick" else 60):
+            break
     out, rep, res = generic("C20", work, tier, seed, "kdc", "KdcTrace", scripts, design,
                             lambda v: "%s/%s" % (v["guard"], "valid" if v["a"].startswith("POST.ok.valid") else v["a"]),
                             "KdcProxy.tla: request classes x KDC behaviours for 2 KDCs, safety invariants and liveness (every request is answered) under fairness (design). Conformance: requests enumerated by TLC "
